@@ -269,9 +269,14 @@ def motors_random(ctx, rng):
         else:
             steps.append({"m": "motors_query_enabled", "a": []})
     steps.append({"m": "motors_query_enabled", "a": []})
-    scen = {"board": {"version": "3.0.2", "en1": rng.random() < 0.5, "en2": rng.random() < 0.5, "mode": rng.randint(1, 5)},
-            "setup": "attach", "steps": steps}
-    run_case(ctx, ["motors random sequence"], scen)
+    # boards with newer firmware implement the same documented EM / QE / CU behaviour: the round trip is the
+    # same for every supported version, however the object learnt it (connect() handshake or attached port)
+    version = rng.choice(["3.0.2", "3.0.2", "3.0.3", "3.1.0", "3.2.1", "4.0.0", "10.0.3"])
+    setup = rng.choice(["attach", "connect", "connect"])
+    scen = {"board": {"version": version, "en1": rng.random() < 0.5, "en2": rng.random() < 0.5, "mode": rng.randint(1, 5)},
+            "setup": setup, "steps": steps}
+    run_case(ctx, ["motors random sequence", "board firmware %s" % ("3.0.x" if version.startswith("3.0") else "3.1 or newer"),
+                   "version learnt through %s" % setup], scen)
 
 
 def run(ctx):
@@ -310,6 +315,8 @@ def run(ctx):
     ctx.need("nickname round trip", 1000)
     ctx.need("nickname: rewritten with a near-identical name (case / padding / one character)", 300)
     ctx.need("motors random sequence", 3000)
+    ctx.need("board firmware 3.1 or newer", 500)
+    ctx.need("version learnt through connect", 500)
     ctx.need("monitor:board state compared with the model", 20000)
     for s in range(29):
         ctx.need("slot:%d" % s, 10)
